@@ -35,11 +35,12 @@ def glLookup (gl : GlyphList) (n : Name) : Option Text :=
   | some e => some e.2
   | none => none
 
-/-- Value of one hexadecimal digit, either case (`[0-9a-fA-F]`). -/
+/-- Value of one hexadecimal digit, either case (`[0-9a-fA-F]`), by code point. -/
 def hexDigitVal (c : Char) : Option Nat :=
-  if '0' ≤ c ∧ c ≤ '9' then some (c.toNat - 48)
-  else if 'a' ≤ c ∧ c ≤ 'f' then some (c.toNat - 87)
-  else if 'A' ≤ c ∧ c ≤ 'F' then some (c.toNat - 55)
+  let n := c.toNat
+  if 48 ≤ n ∧ n ≤ 57 then some (n - 48)
+  else if 97 ≤ n ∧ n ≤ 102 then some (n - 87)
+  else if 65 ≤ n ∧ n ≤ 70 then some (n - 55)
   else none
 
 def isHexDigit (c : Char) : Bool := (hexDigitVal c).isSome
@@ -163,6 +164,11 @@ def EncDB.get (db : EncDB) (name : String) : Table :=
   match db.tables.find? (fun e => e.1 == name) with
   | some e => e.2
   | none => db.default
+
+/-- The class body of `EncodingDB`: one table per entry of `encodings` (name, column) and the default table. -/
+def EncDB.ofRows (gl : GlyphList) (rows : List EncRow) (cols : List (String × Nat)) (dflt : Nat) : EncDB :=
+  { tables := cols.map (fun e => (e.1, buildTable gl e.2 rows [])),
+    default := buildTable gl dflt rows [] }
 
 /-- `EncodingDB.get_encoding(name, diff)`. -/
 def getEncoding (gl : GlyphList) (db : EncDB) (name : String) (diff : List DiffTok) : Table :=
